@@ -93,7 +93,8 @@ def lean_run(driver, lines, timeout=3000):
     inp = "\n".join(lines) + "\n"
     p = subprocess.run(["lake", "env", "lean", "--run", f"Drive/{driver}.lean"], cwd=LEAN, input=inp,
                        capture_output=True, text=True, timeout=timeout)
-    out = [l for l in p.stdout.splitlines() if l.strip() != ""]
+    out = [l for l in p.stdout.splitlines() if l.strip() != "" and not re.match(r"^Drive/\S+\.lean:\d+:\d+: (warning|info)", l)
+           and not l.startswith("Note:") and not l.startswith("Hint:")]
     if p.returncode != 0:
         raise RuntimeError(f"driver {driver} failed: {p.stderr[-2000:]} {p.stdout[-500:]}")
     return out
